@@ -172,16 +172,22 @@ func runC06(c *Ctx) {
 		}
 		// consumer table lookups
 		nl := 0
-		for _, in := range instrs(f) {
+		isConsumerLookup := func(in ssa.Instruction) bool {
 			lk, ok := in.(*ssa.Lookup)
-			if !ok || !strings.HasPrefix(typeStr(lk.X.Type()), "map[string]rt.Consumer") {
-				continue
-			}
+			return ok && strings.HasPrefix(typeStr(lk.X.Type()), "map[string]rt.Consumer")
+		}
+		for _, site := range sitesUnder(f, isConsumerLookup) {
+			lk := site.In.(*ssa.Lookup)
 			nl++
-			okTab := vFieldLoadO(routeEntryT, "Consumers")(lk.X)
+			var okTab, okKey bool
+			site.at(func() {
+				// (in the calling context of this gate when the lookup lives in a helper shared by both gates)
+				okTab = vFieldLoadO(routeEntryT, "Consumers")(lk.X)
+				okKey = isMT(lk.Index)
+			})
 			c.obI("R06.1", lk, "consumer-table", okTab, "the consumer is taken from the route's consumer table", "map "+describe(lk.X))
-			c.obI("R06.1", lk, "lookup-key-is-parsed-type", isMT(lk.Index), "the consumer table is indexed with the parsed, parameter-free, lower-cased media type — never the raw header", "key "+describe(lk.Index))
-			c.obI("R06.1", lk, "lookup-under-HasBody", guardedBy(lk, nil, hasBody), "no consumer is selected for a request without a body", "")
+			c.obI("R06.1", lk, "lookup-key-is-parsed-type", okKey, "the consumer table is indexed with the parsed, parameter-free, lower-cased media type — never the raw header", "key "+describe(lk.Index))
+			c.obI("R06.1", lk, "lookup-under-HasBody", site.guarded(f, hasBody), "no consumer is selected for a request without a body", "")
 			if lk.CommaOk {
 				okv := extractOf(lk, 1)
 				val := extractOf(lk, 0)
@@ -200,7 +206,8 @@ func runC06(c *Ctx) {
 					c.obI("R06.1", lk, "miss-records-500", missOK, "a media type that was admitted but has no registered consumer is answered with a 500 error, not silently bound", "a table miss can reach a return without recording the error")
 				}
 				for _, st := range fieldStores(f, matchedRouteT, "Consumer") {
-					okS, _ := allOrigins(st.Val, oIsValue(val))
+					okS, _ := allOrigins(st.Val, oIsValue(val), oNil()) // (nil: what a lookup helper returns next to its error)
+					okS = okS && someOrigin(st.Val, oIsValue(val))
 					g := okv != nil && guardedBy(st, lk, factBool(vIs(okv), true))
 					c.obI("R06.1", st, "per-request-consumer-is-table-entry", okS && g, "the consumer stored on the per-request route is the table entry found for the parsed media type", "value "+describe(st.Val))
 				}
@@ -272,9 +279,37 @@ func runC06(c *Ctx) {
 	vf := p.Fn("rt/middleware.validateContentType")
 	allowed, actual := vf.Params[0], vf.Params[1]
 	isAllowed := vOrigins(oIsValue(allowed))
+	// an element of the allowed list (allowed[i] / the range value)
+	isElem := func(v ssa.Value) bool {
+		ad, ok := derefLoad(v)
+		if !ok {
+			return false
+		}
+		ia, ok := ad.(*ssa.IndexAddr)
+		return ok && isAllowed(ia.X)
+	}
+	// a case-insensitive membership test: swag.ContainsStringsCI(allowed, x), or strings.EqualFold(allowed[i], x)
+	foldOther := func(call *ssa.Call) ssa.Value {
+		if call == nil || calleeName(&call.Call) != "strings.EqualFold" {
+			return nil
+		}
+		if isElem(call.Call.Args[0]) {
+			return call.Call.Args[1]
+		}
+		if isElem(call.Call.Args[1]) {
+			return call.Call.Args[0]
+		}
+		return nil
+	}
 	member := func(v ssa.Value) bool {
 		call := asCall(v)
-		return call != nil && calleeName(&call.Call) == "github.com/go-openapi/swag.ContainsStringsCI" && isAllowed(call.Call.Args[0])
+		if call == nil {
+			return false
+		}
+		if calleeName(&call.Call) == "github.com/go-openapi/swag.ContainsStringsCI" && isAllowed(call.Call.Args[0]) {
+			return true
+		}
+		return foldOther(call) != nil
 	}
 	admitted := anyFact(factBool(member, true), factLenPositive(isAllowed, false))
 	for _, r := range returnsOf(vf) {
@@ -290,28 +325,61 @@ func runC06(c *Ctx) {
 		}
 	}
 	var sawExact, sawAny, sawType bool
-	for _, ci := range allCalls(vf) {
-		name := calleeName(ci.Common())
-		if strings.HasPrefix(name, "github.com/go-openapi/swag.ContainsStrings") {
-			c.obI("R06.3", ci, "case-insensitive-membership", name == "github.com/go-openapi/swag.ContainsStringsCI" && isAllowed(ci.Common().Args[0]), "membership in the consumes list is tested case-insensitively", "uses "+name)
-			arg := ci.Common().Args[1]
-			if s, ok := constString(arg); ok && s == "*/*" {
-				sawAny = true
-			} else if ok, _ := allOrigins(arg, oCall(0, "mime.ParseMediaType")); ok {
-				sawExact = true
-			} else if bo, ok := arg.(*ssa.BinOp); ok {
+	classify := func(arg ssa.Value) {
+		if s, ok := constString(arg); ok && s == "*/*" {
+			sawAny = true
+			return
+		}
+		if ok, _ := allOrigins(arg, oCall(0, "mime.ParseMediaType")); ok {
+			sawExact = true
+			return
+		}
+		for _, o := range originsOf(arg) {
+			if bo, ok := o.V.(*ssa.BinOp); ok {
 				if s, ok := constString(bo.Y); ok && s == "/*" {
 					sawType = true
 				}
 			}
 		}
 	}
+	for _, ci := range allCalls(vf) {
+		name := calleeName(ci.Common())
+		if strings.HasPrefix(name, "github.com/go-openapi/swag.ContainsStrings") {
+			c.obI("R06.3", ci, "case-insensitive-membership", name == "github.com/go-openapi/swag.ContainsStringsCI" && isAllowed(ci.Common().Args[0]), "membership in the consumes list is tested case-insensitively", "uses "+name)
+			classify(ci.Common().Args[1])
+		}
+		if call, isCall := ci.(*ssa.Call); isCall {
+			if other := foldOther(call); other != nil {
+				classify(other)
+			}
+		}
+	}
 	c.obF("R06.3", vf, "three-admission-forms", sawExact && sawAny && sawType, "admission knows the exact type, */* and type/* forms", fmt.Sprintf("exact:%v any:%v type/*:%v", sawExact, sawAny, sawType))
 	// elements of `allowed` are never compared with == (case-sensitive)
 	for _, in := range instrs(vf) {
-		if ia, ok := in.(*ssa.IndexAddr); ok && isAllowed(ia.X) {
-			c.obI("R06.3", ia, "no-direct-comparison", false, "elements of the consumes list are only compared through swag.ContainsStringsCI", "direct element access")
+		ia, ok := in.(*ssa.IndexAddr)
+		if !ok || !isAllowed(ia.X) {
+			continue
 		}
+		// an element may only be handed to strings.EqualFold
+		okUse := true
+		for _, ref := range *ia.Referrers() {
+			ld, isLd := ref.(*ssa.UnOp)
+			if !isLd {
+				okUse = false
+				continue
+			}
+			for _, use := range *ld.Referrers() {
+				if call, isCall := use.(*ssa.Call); isCall && calleeName(&call.Call) == "strings.EqualFold" {
+					continue
+				}
+				if _, isDbg := use.(*ssa.DebugRef); isDbg {
+					continue
+				}
+				okUse = false
+			}
+		}
+		c.obI("R06.3", ia, "no-direct-comparison", okUse, "elements of the consumes list are only compared case-insensitively (swag.ContainsStringsCI / strings.EqualFold)", "an element of the list is used by something other than a case-insensitive comparison")
 	}
 	// runtime.ContentType
 	rc := p.Fn("rt.ContentType")
